@@ -221,7 +221,71 @@ fn pending_faults(s: &Snap) -> Vec<usize> {
     out
 }
 
-fn run_schedule(run_id: usize, sch: &Value, dir: &str, trace: &mut Trace) -> Value {
+/// the strict trace's view of an environment step of the schedule (spec-level arguments: listeners and connection ids
+/// 1-based, workers 0-based); `None` for steps outside AcceptDispatch.tla's alphabet
+fn strict_env(st: &Value) -> Option<Value> {
+    Some(match gets(st, "do") {
+        "Connect" => json!({"do": "Connect", "l": geti(st, "l") + 1}),
+        "WorkerPoll" => json!({"do": "WorkerPoll", "i": geti(st, "i")}),
+        "Finish" | "TearDown" => json!({"do": "Finish", "c": geti(st, "c") + 1}),
+        "Kill" => json!({"do": "Kill", "i": geti(st, "i")}),
+        "Replace" => json!({"do": "Replace", "i": geti(st, "i")}),
+        "Cmd" => json!({"do": "Cmd", "x": gets(st, "x")}),
+        "WakeAvailable" => json!({"do": "WakeAvailable", "i": geti(st, "i")}),
+        "Inject" => {
+            let kind = match st.get("kind").and_then(|k| k.as_str()) {
+                Some("conn") | Some("reset") | Some("refused") => "conn",
+                Some(_) => "fatal",
+                None => match geti(st, "errno") {
+                    103 | 104 | 111 => "conn",
+                    _ => "fatal",
+                },
+            };
+            json!({"do": "Inject", "l": geti(st, "l") + 1, "kind": kind})
+        }
+        "Advance" | "Tick" => json!({"do": "Advance"}),
+        _ => return None,
+    })
+}
+
+/// events of one call of `Sim::iterate*` for the strict trace: the yield points in order, anchored environment actions
+/// where they fired, the end of the iteration with the measured state, then the anchored actions that were applied
+/// after it because their yield point was not reached
+fn strict_iter(strict: &mut Option<Trace>, run: &mut Run, run_id: usize, s: &Snap, anchored: &[Value]) {
+    let proj = run.project(s);
+    let Some(t) = strict.as_mut() else { return };
+    let (ran, bare, missed) = run.sim.last_iter.clone();
+    let emit_env = |t: &mut Trace, a: &Value, in_iter: bool| match strict_env(&a["step"]) {
+        Some(mut e) => {
+            e["ev"] = json!("env");
+            e["run"] = json!(run_id);
+            e["in_iter"] = json!(in_iter);
+            e["has_st"] = json!(false);
+            t.emit(&e);
+        }
+        None => t.emit(&json!({"ev": "unsupported", "run": run_id, "do": gets(&a["step"], "do")})),
+    };
+    if ran {
+        if bare {
+            t.emit(&json!({"ev": "env", "run": run_id, "do": "BareWake", "in_iter": false, "has_st": false}));
+        }
+        for (kind, arg) in s.points.iter() {
+            if kind == "fired" {
+                emit_env(t, &anchored[*arg], true);
+            } else {
+                t.emit(&json!({"ev": "pt", "run": run_id, "kind": kind, "arg": arg}));
+            }
+        }
+        t.emit(&json!({"ev": "iterend", "run": run_id, "st": proj}));
+    }
+    for i in missed {
+        emit_env(t, &anchored[i], false);
+    }
+    // the state after the late actions (and after a blocked iteration) is not measured separately: the next
+    // event that carries a state is compared
+}
+
+fn run_schedule(run_id: usize, sch: &Value, dir: &str, trace: &mut Trace, strict: &mut Option<Trace>) -> Value {
     let cfg = &sch["cfg"];
     let w = geti(cfg, "W") as usize;
     let limit = geti(cfg, "Limit") as usize;
@@ -260,6 +324,10 @@ fn run_schedule(run_id: usize, sch: &Value, dir: &str, trace: &mut Trace) -> Val
     trace.emit(&json!({"ev": "reset", "run": run_id, "W": w, "Limit": limit, "L": listeners.len(),
         "uds": listeners.iter().enumerate().filter(|(_, k)| **k == LKind::Uds).map(|(i, _)| i + 1).collect::<Vec<_>>(),
         "st": st0}));
+    if let Some(t) = strict.as_mut() {
+        t.emit(&json!({"ev": "reset", "run": run_id, "W": w, "Limit": limit, "L": listeners.len(),
+            "uds": listeners.iter().enumerate().filter(|(_, k)| **k == LKind::Uds).map(|(i, _)| i + 1).collect::<Vec<_>>()}));
+    }
     let mut anchors_missed = 0usize;
     let mut steps_done = 0usize;
     let steps = sch["steps"].as_array().unwrap();
@@ -269,6 +337,7 @@ fn run_schedule(run_id: usize, sch: &Value, dir: &str, trace: &mut Trace) -> Val
         let mut pe = false; // paused for the whole step
         let disp_before = prev.dispatched.len();
         let mut resume_seen = prev.wq.iter().any(|n| n == "Resume");
+        let mut pre_snap: Option<Snap> = None; // the step's snapshot when it was already taken (and absorbed)
         match d {
             "Iter" => {
                 let mut anchored = vec![];
@@ -286,6 +355,11 @@ fn run_schedule(run_id: usize, sch: &Value, dir: &str, trace: &mut Trace) -> Val
                 }
                 pe = prev.paused && !resume_seen;
                 anchors_missed += run.sim.iterate(anchored);
+                let s = run.sim.snapshot();
+                absorb(&mut run, &s);
+                let anch: Vec<Value> = st.get("anchored").and_then(|a| a.as_array()).cloned().unwrap_or_default();
+                strict_iter(strict, &mut run, run_id, &s, &anch);
+                pre_snap = Some(s);
             }
             "Settle" => {
                 let mut stable = 0;
@@ -299,6 +373,7 @@ fn run_schedule(run_id: usize, sch: &Value, dir: &str, trace: &mut Trace) -> Val
                     let sig = signature(&s);
                     let empty = s.wq.is_empty();
                     absorb(&mut run, &s);
+                    strict_iter(strict, &mut run, run_id, &s, &[]);
                     prev = s;
                     if sig == last && empty {
                         stable += 1;
@@ -314,9 +389,13 @@ fn run_schedule(run_id: usize, sch: &Value, dir: &str, trace: &mut Trace) -> Val
                 // time out (an iteration without the bare wake; only possible while it has a poll timeout)
                 if prev.sock_expired.iter().any(|x| *x) && prev.timeout_ms >= 0 && prev.panicked.is_empty() && !prev.exited {
                     run.sim.iterate_let_poll_time_out();
+                    let s = run.sim.snapshot();
+                    absorb(&mut run, &s);
+                    strict_iter(strict, &mut run, run_id, &s, &[]);
                     run.sim.iterate(vec![]);
                     let s = run.sim.snapshot();
                     absorb(&mut run, &s);
+                    strict_iter(strict, &mut run, run_id, &s, &[]);
                     prev = s;
                 }
                 q = stable >= 2;
@@ -325,6 +404,9 @@ fn run_schedule(run_id: usize, sch: &Value, dir: &str, trace: &mut Trace) -> Val
             "PollWoken" => {
                 for i in run.sim.woken_workers() {
                     run.sim.apply(&Act::WorkerPoll(i));
+                    if let Some(t) = strict.as_mut() {
+                        t.emit(&json!({"ev": "env", "run": run_id, "do": "WorkerPoll", "i": i, "in_iter": false, "has_st": false}));
+                    }
                 }
             }
             _ => {
@@ -335,8 +417,30 @@ fn run_schedule(run_id: usize, sch: &Value, dir: &str, trace: &mut Trace) -> Val
                 }
             }
         }
-        let s = run.sim.snapshot();
-        absorb(&mut run, &s);
+        let s = match pre_snap.take() {
+            Some(s) => s,
+            None => {
+                let s = run.sim.snapshot();
+                absorb(&mut run, &s);
+                s
+            }
+        };
+        if d != "Iter" && d != "Settle" && d != "PollWoken" {
+            let proj = run.project(&s);
+            if let Some(t) = strict.as_mut() {
+                match strict_env(st) {
+                    Some(mut e) => {
+                        e["ev"] = json!("env");
+                        e["run"] = json!(run_id);
+                        e["in_iter"] = json!(false);
+                        e["has_st"] = json!(true);
+                        e["st"] = proj;
+                        t.emit(&e);
+                    }
+                    None => t.emit(&json!({"ev": "unsupported", "run": run_id, "do": d})),
+                }
+            }
+        }
         let ndisp = s.dispatched.len() - disp_before.min(s.dispatched.len());
         // worker-side bookkeeping for the Worker.tla predicates
         let prev_stop = run.stop_sent.clone();
@@ -451,16 +555,20 @@ fn main() {
         "replay" => {
             let schedules = read_ndjson(&arg("--schedules").expect("--schedules"));
             let mut trace = Trace::create(&arg("--trace").expect("--trace"));
+            let mut strict = arg("--strict").map(|p| Trace::create(&p));
             let dir = std::env::temp_dir().join(format!("vsrv-{}", std::process::id()));
             std::fs::create_dir_all(&dir).unwrap();
             let mut steps = 0u64;
             let mut missed = 0u64;
             for (i, sch) in schedules.iter().enumerate() {
-                let r = run_schedule(i, sch, &dir.display().to_string(), &mut trace);
+                let r = run_schedule(i, sch, &dir.display().to_string(), &mut trace, &mut strict);
                 steps += r["steps"].as_u64().unwrap();
                 missed += r["anchors_missed"].as_u64().unwrap();
             }
             trace.finish();
+            if let Some(t) = strict {
+                t.finish();
+            }
             let _ = std::fs::remove_dir_all(&dir);
             println!(
                 "{}",
@@ -643,11 +751,18 @@ fn project_e2e(run: usize, sc: &Value, events: &[Value]) -> Vec<Value> {
     let mut server_done = false;
     let mut server_done_ms: i64 = -1;
     let mut late_served = false;
+    // connections whose service future was dropped unfinished during a graceful stop before shutdown_timeout
+    let mut killed_early: Vec<u64> = vec![];
     let mut out = vec![];
     for (k, e) in events.iter().enumerate() {
         let name = e["e"].as_str().unwrap_or("");
         let ms = e["ms"].as_i64().unwrap_or(0);
         match name {
+            "ConnKilled" => {
+                if stop_ms >= 0 && graceful && ms - stop_ms < timeout_ms as i64 - 100 {
+                    killed_early.push(e["c"].as_u64().unwrap_or(0));
+                }
+            }
             "ConnStarted" => {
                 let c = e["c"].as_u64().unwrap_or(0);
                 live.push(c);
@@ -688,7 +803,7 @@ fn project_e2e(run: usize, sc: &Value, events: &[Value]) -> Vec<Value> {
             "sinceStop": if stop_ms >= 0 { ms - stop_ms } else { -1 }, "timeoutMs": timeout_ms,
             "stops": stops, "resolved": resolved, "dropped": dropped,
             "serverDone": server_done, "doneSinceStop": if server_done && stop_ms >= 0 { server_done_ms - stop_ms } else { -1 },
-            "lateServed": late_served, "heldForever": held_forever, "raw": e}));
+            "lateServed": late_served, "heldForever": held_forever, "killedEarly": killed_early, "raw": e}));
     }
     out
 }
